@@ -178,3 +178,5 @@ func runC08(c c08Case) *vlib.Outcome {
 func TestC08(t *testing.T) {
 	vlib.Check(t, "C08", genC08, runC08)
 }
+
+func FuzzC08(f *testing.F) { vlib.Fuzz(f, "C08", genC08, runC08) }
